@@ -44,42 +44,71 @@ theorem coverOf_eq_some (P : Params) (H W : Nat) (s : Surface) (hs : WellPlaced 
     obtain ⟨_, _, _, w4, _⟩ := hs
     rw [w4 q' q p h2.1 h2.2 hq1 hq2 h1 h]
 
-theorem imgOf_normR (P : Params) (H W : Nat) (s : Surface) (hs : WellPlaced P H W s) (r c : Nat)
-    (hr : r < H) (hc : c < W) : imgOf P (normR P s r c) = imgOf P (s r c) := by
-  unfold normR
-  cases hsh : shadowedRaw P s r c
-  · simp [imgOf_rasterise]
-  · simp only [if_true]
-    cases hi : imgOf P (s r c) with
-    | none => simp [imgOf, nulCell]
-    | some i =>
-      have := wp_img_not_shadowed P H W s hs r c hr hc (by rw [hi]; simp)
-      rw [hsh] at this; cases this
+/-- `b` is a front surface the first pass can produce from `s`: outside image areas the normalised
+surface; an image cell is the rasterised cell; a cell hidden under an image is either its own
+(rasterised) content or zero-width -/
+def NormOf (P : Params) (H W : Nat) (s b : Surface) : Prop :=
+  ∀ r c, r < H → c < W →
+    (b r c = nulCell ∨ b r c = rasterise P (s r c)) ∧
+    (¬ Cov P H W s (r, c) → b r c = normD P H W s r c) ∧
+    (imgOf P (s r c) ≠ none → b r c = rasterise P (s r c))
 
-theorem shadowed_normR (P : Params) (s : Surface) (r : Nat) :
-    ∀ c, shadowedRaw P (normR P s) r c = shadowedRaw P s r c := by
+theorem imgOf_normOf (P : Params) (H W : Nat) (s b : Surface) (hb : NormOf P H W s b) (r c : Nat)
+    (hr : r < H) (hc : c < W) : imgOf P (b r c) = imgOf P (s r c) := by
+  obtain ⟨h1, _, h3⟩ := hb r c hr hc
+  cases hi : imgOf P (s r c) with
+  | some i => rw [h3 (by rw [hi]; simp), imgOf_rasterise, hi]
+  | none =>
+    rcases h1 with h | h
+    · rw [h]; simp [imgOf, nulCell]
+    · rw [h, imgOf_rasterise, hi]
+
+theorem covers_congr_normOf (P : Params) (H W : Nat) (s b : Surface) (hb : NormOf P H W s b)
+    (q p : Nat × Nat) (hq1 : q.1 < H) (hq2 : q.2 < W) : covers P b q p = covers P s q p := by
+  rw [covers_eq, covers_eq, imgOf_normOf P H W s b hb q.1 q.2 hq1 hq2]
+
+theorem cov_congr_normOf (P : Params) (H W : Nat) (s b : Surface) (hb : NormOf P H W s b) (p : Nat × Nat) :
+    Cov P H W b p ↔ Cov P H W s p := by
+  constructor
+  · rintro ⟨q, q1, q2, q3⟩; exact ⟨q, q1, q2, by rw [← covers_congr_normOf P H W s b hb q p q1 q2]; exact q3⟩
+  · rintro ⟨q, q1, q2, q3⟩; exact ⟨q, q1, q2, by rw [covers_congr_normOf P H W s b hb q p q1 q2]; exact q3⟩
+
+theorem shadowed_of_normOf (P : Params) (H W : Nat) (s b : Surface) (hb : NormOf P H W s b)
+    (r : Nat) (hr : r < H) : ∀ c, c ≤ W → shadowed P H W b r c = shadowed P H W s r c := by
   intro c
   induction c with
-  | zero => rfl
+  | zero => intro _; rfl
   | succ c ih =>
-    simp only [shadowedRaw, ih, normR]
-    cases h : shadowedRaw P s r c
-    · simp [isWide_rasterise]
-    · simp
+    intro hc
+    have e1 : shadowed P H W b r (c + 1) =
+        (isWide P (b r c) && !shadowed P H W b r c && (coverOf P H W b (r, c)).isNone) := rfl
+    have e2 : shadowed P H W s r (c + 1) =
+        (isWide P (s r c) && !shadowed P H W s r c && (coverOf P H W s (r, c)).isNone) := rfl
+    rw [e1, e2, ih (by omega),
+      coverOf_congr P H W b s (r, c) (fun q h1 h2 => covers_congr_normOf P H W s b hb q (r, c) h1 h2)]
+    cases hcv : coverOf P H W s (r, c) with
+    | some q => simp
+    | none =>
+      have hnc := (coverOf_none_iff P H W s (r, c)).1 hcv
+      rw [(hb r c hr (by omega)).2.1 hnc]
+      simp only [normD]
+      cases hsh : shadowed P H W s r c
+      · simp [isWide_rasterise]
+      · simp
 
 /-- closed form of the specification on well-placed surfaces -/
 theorem display_wp (P : Params) (hP : ParamsOk P) (H W : Nat) (s : Surface) (hs : WellPlaced P H W s)
     (r c : Nat) (hr : r < H) (hc : c < W) :
     (∀ q, q.1 < H → q.2 < W → covers P s q (r, c) = true →
-      (display P H W s).grid r c = .glyph 32 (s q.1 q.2).face) ∧
+      (display P H W s).grid r c = blankOf P (s q.1 q.2).face) ∧
     ((∀ q, q.1 < H → q.2 < W → covers P s q (r, c) = false) →
-      (display P H W s).grid r c = dispN P (normR P s r c)) := by
+      (display P H W s).grid r c = dispN P (normD P H W s r c)) := by
   constructor
   · intro q hq1 hq2 hcov
     simp [display, displayCell, coverOf_eq_some P H W s hs q (r, c) hq1 hq2 hcov]
   · intro hno
-    simp only [display, displayCell, coverOf_eq_none P H W s (r, c) hno, normR]
-    cases hsh : shadowedRaw P s r c
+    simp only [display, displayCell, coverOf_eq_none P H W s (r, c) hno, normD]
+    cases hsh : shadowed P H W s r c
     · simp only [Bool.false_eq_true, if_false]
       cases hk : (s r c).kind with
       | chr ch =>
@@ -104,20 +133,15 @@ theorem display_wp (P : Params) (hP : ParamsOk P) (H W : Nat) (s : Surface) (hs 
         cases this
     · simp [dispN, nulCell, hP.nul]
 
-theorem covers_congr_normR (P : Params) (H W : Nat) (s b : Surface) (hs : WellPlaced P H W s)
-    (hb : ∀ r c, r < H → c < W → b r c = normR P s r c) (q p : Nat × Nat) (hq1 : q.1 < H) (hq2 : q.2 < W) :
-    covers P b q p = covers P s q p := by
-  rw [covers_eq, covers_eq, hb q.1 q.2 hq1 hq2, imgOf_normR P H W s hs q.1 q.2 hq1 hq2]
-
-/-- the normalised surface is displayed like the surface itself -/
+/-- a front surface produced from `s` is displayed like `s` itself -/
 theorem display_congr_wp (P : Params) (H W : Nat) (s b : Surface) (hs : WellPlaced P H W s)
-    (hb : ∀ r c, r < H → c < W → b r c = normR P s r c) :
+    (hb : NormOf P H W s b) :
     (∀ r c, r < H → c < W → (display P H W b).grid r c = (display P H W s).grid r c) ∧
     (∀ r c, (display P H W b).place r c = (display P H W s).place r c) := by
   constructor
   · intro r c hr hc
     simp only [display, displayCell]
-    rw [coverOf_congr P H W b s (r, c) (fun q h1 h2 => covers_congr_normR P H W s b hs hb q (r, c) h1 h2)]
+    rw [coverOf_congr P H W b s (r, c) (fun q h1 h2 => covers_congr_normOf P H W s b hb q (r, c) h1 h2)]
     cases hcv : coverOf P H W s (r, c) with
     | some q =>
       simp only
@@ -129,23 +153,20 @@ theorem display_congr_wp (P : Params) (H W : Nat) (s b : Surface) (hs : WellPlac
         simpa using this
       have himg : imgOf P (s q.1 q.2) ≠ none := by
         intro h; simp [covers, h] at hcov
-      have := wp_img_not_shadowed P H W s hs q.1 q.2 hq.1 hq.2 himg
-      rw [hb q.1 q.2 hq.1 hq.2]
-      simp [normR, this, rasterise_face]
+      rw [(hb q.1 q.2 hq.1 hq.2).2.2 himg, rasterise_face]
     | none =>
       simp only
-      have e1 : shadowedRaw P b r c = shadowedRaw P s r c := by
-        rw [shadowed_congr P b (normR P s) r W (fun c hc => hb r c hr hc) c (by omega), shadowed_normR]
-      rw [e1, hb r c hr hc]
-      cases hsh : shadowedRaw P s r c
-      · simp only [Bool.false_eq_true, if_false, normR, hsh]
+      have hnc := (coverOf_none_iff P H W s (r, c)).1 hcv
+      rw [shadowed_of_normOf P H W s b hb r hr c (by omega), (hb r c hr hc).2.1 hnc]
+      cases hsh : shadowed P H W s r c
+      · simp only [Bool.false_eq_true, if_false, normD, hsh]
         cases hk : (s r c).kind <;> simp [rasterise, hk]
       · simp
   · intro r c
     simp only [display]
     split
     · rename_i h
-      rw [hb r c h.1 h.2, imgOf_normR P H W s hs r c h.1 h.2]
+      rw [imgOf_normOf P H W s b hb r c h.1 h.2]
     · rfl
 
 end SurfProofs.C01
